@@ -7,6 +7,7 @@ import (
 	"bufio"
 	"bytes"
 	"context"
+	"encoding/base64"
 	"encoding/json"
 	"fmt"
 	"go/ast"
@@ -296,7 +297,8 @@ type Job struct {
 	Pkg   string `json:"pkg"`
 	Mode  string `json:"mode"` // "parse" | "lex"
 	Entry int    `json:"entry"`
-	Text  string `json:"text"`
+	Text  string `json:"-"`   // binary safe: transported as B64
+	B64   string `json:"b64"` // filled by Run
 	// error handler policy: 0 = stop on first error, k>0 = stop at the k-th, -1 = never stop
 	EH int `json:"eh"`
 	// cancellation: -1 none
@@ -381,7 +383,9 @@ func Run(bin, workDir string, jobs []Job, cpuSec int, extraEnv ...string) (*RunR
 		bw := bufio.NewWriter(f)
 		enc := json.NewEncoder(bw)
 		for i := range remaining {
+			remaining[i].B64 = base64.StdEncoding.EncodeToString([]byte(remaining[i].Text))
 			enc.Encode(&remaining[i])
+			remaining[i].B64 = ""
 		}
 		bw.Flush()
 		f.Close()
